@@ -5,7 +5,8 @@
     quantified functions: every theorem holds whatever they answer. *)
 From Coq Require Import String List NArith Bool.
 From Fabio Require Import Lib.Outcome Lib.Bytes Model.Access Proofs.Access Model.BasicReload Proofs.BasicReload
-     Model.BasicSchemes Proofs.BasicSchemes Model.GateRequest Proofs.GateRequest.
+     Model.BasicSchemes Proofs.BasicSchemes Model.GateRequest Proofs.GateRequest
+     Model.ReloadRemoval Proofs.ReloadRemoval Model.TcpTargets Proofs.TcpTargets.
 Import ListNotations.
 Local Open Scope N_scope.
 
@@ -854,3 +855,136 @@ Theorem C12_request_nonvacuous :
   file_accepts ex_file1 ex_alice.
 Proof. exact gate_request_nonvacuous. Qed.
 Print Assumptions C12_request_nonvacuous.
+
+(* ================= round 8: a TCP route with SEVERAL targets (Model/TcpTargets.v) ================= *)
+(* tcp.Proxy.ServeTCP on a route whose targets carry access rules of their own and whose instances
+   may be gone; Lookup's answers (first call and any later call), the aliveness of every instance,
+   the target list and the peer are universally quantified. *)
+
+(* a target is dialled only if ITS OWN rules admit the peer *)
+Theorem C12_tcp_route_dial_only_admitted : forall ts c i ok,
+  In (TDial i ok) (serve_tcp_route ts c) ->
+  exists r, nth_error ts i = Some r /\ access_denied_tcp r (tc_peer c) = false.
+Proof. exact tcp_route_dial_only_admitted. Qed.
+Print Assumptions C12_tcp_route_dial_only_admitted.
+
+Theorem C12_tcp_route_tunnel_only_admitted : forall ts c i,
+  In (TTunnel i) (serve_tcp_route ts c) ->
+  tc_pick c 0 = Some i /\ tc_alive c i = true /\
+  exists r, nth_error ts i = Some r /\ access_denied_tcp r (tc_peer c) = false.
+Proof. exact tcp_route_tunnel_only_admitted. Qed.
+Print Assumptions C12_tcp_route_tunnel_only_admitted.
+
+(* the picked target rejects the peer: closed, no dial - whatever the other targets say *)
+Theorem C12_tcp_route_denied_closes : forall ts c i r,
+  tc_pick c 0 = Some i -> nth_error ts i = Some r -> access_denied_tcp r (tc_peer c) = true ->
+  serve_tcp_route ts c = [TLookup 0 (Some i); TClose].
+Proof. exact tcp_route_denied_closes. Qed.
+Print Assumptions C12_tcp_route_denied_closes.
+
+(* the dial to the admitted target fails: closed; no second Lookup, no other target contacted *)
+Theorem C12_tcp_route_failed_dial_closes : forall ts c i r,
+  tc_pick c 0 = Some i -> nth_error ts i = Some r -> access_denied_tcp r (tc_peer c) = false ->
+  tc_alive c i = false ->
+  serve_tcp_route ts c = [TLookup 0 (Some i); TDial i false; TClose].
+Proof. exact tcp_route_failed_dial_closes. Qed.
+Print Assumptions C12_tcp_route_failed_dial_closes.
+
+Theorem C12_tcp_route_one_lookup_at_most_one_dial : forall ts c,
+  lookups_of (serve_tcp_route ts c) = 1%N /\
+  (List.length (filter is_dial (serve_tcp_route ts c)) <= 1)%nat /\
+  forall j, (accepts_of (serve_tcp_route ts c) j <= 1)%N.
+Proof. exact tcp_route_one_lookup_at_most_one_dial. Qed.
+Print Assumptions C12_tcp_route_one_lookup_at_most_one_dial.
+
+Theorem C12_tcp_route_contact_is_first_pick : forall ts c i ok,
+  In (TDial i ok) (serve_tcp_route ts c) -> tc_pick c 0 = Some i /\ ok = tc_alive c i.
+Proof. exact tcp_route_contact_is_first_pick. Qed.
+Print Assumptions C12_tcp_route_contact_is_first_pick.
+
+(* frame: the other targets' rules, their aliveness and Lookup's later answers do not matter *)
+Theorem C12_tcp_route_reads_only_first_pick : forall ts ts' c c',
+  tc_peer c = tc_peer c' -> tc_pick c 0 = tc_pick c' 0 ->
+  (forall i, tc_pick c 0 = Some i -> nth_error ts i = nth_error ts' i /\ tc_alive c i = tc_alive c' i) ->
+  serve_tcp_route ts c = serve_tcp_route ts' c'.
+Proof. exact tcp_route_reads_only_first_pick. Qed.
+Print Assumptions C12_tcp_route_reads_only_first_pick.
+
+(* composed with the meaning of the lists *)
+Theorem C12_tcp_route_dial_allow_list : forall ts c i ok ip r l,
+  In (TDial i ok) (serve_tcp_route ts c) -> tc_peer c = TCPAddr (Some ip) ->
+  nth_error ts i = Some r -> r_allow r = Some l ->
+  exists b, In b l /\ contains b ip = true.
+Proof. exact tcp_route_dial_allow_list. Qed.
+Print Assumptions C12_tcp_route_dial_allow_list.
+
+Theorem C12_tcp_route_dial_deny_list : forall ts c i ok ip r l b,
+  In (TDial i ok) (serve_tcp_route ts c) -> tc_peer c = TCPAddr (Some ip) ->
+  nth_error ts i = Some r -> r_allow r = None -> r_deny r = Some l -> In b l ->
+  contains b ip = false.
+Proof. exact tcp_route_dial_deny_list. Qed.
+Print Assumptions C12_tcp_route_dial_deny_list.
+
+(* a listener's connections: each judged alone *)
+Theorem C12_tcp_conns_dial_only_admitted : forall ts cs n c i ok,
+  nth_error cs n = Some c -> In (TDial i ok) (nth n (serve_tcp_conns ts cs) []) ->
+  exists r, nth_error ts i = Some r /\ access_denied_tcp r (tc_peer c) = false.
+Proof. exact tcp_conns_dial_only_admitted. Qed.
+Print Assumptions C12_tcp_conns_dial_only_admitted.
+
+(* non-vacuity: a gone instance admitting 127.0.0.0/8 and a live one admitting 10.0.0.0/8 only, round
+   robin: 127.0.0.1 is closed after the failed dial, the live instance (which rejects it, and which a
+   second Lookup would answer) is not contacted *)
+Theorem C12_tcp_route_nonvacuous :
+  serve_tcp_route ex_targets (ex_conn 2130706433 0) = [TLookup 0 (Some 0%nat); TDial 0 false; TClose] /\
+  access_denied_tcp ex_allow_10 (TCPAddr (Some (IP4 2130706433))) = true /\
+  tc_pick (ex_conn 2130706433 0) 1 = Some 1%nat /\ tc_alive (ex_conn 2130706433 0) 1 = true /\
+  serve_tcp_route ex_targets (ex_conn 167837953 0) = [TLookup 0 (Some 0%nat); TClose] /\
+  serve_tcp_route ex_targets (ex_conn 2130706433 1) = [TLookup 0 (Some 1%nat); TClose] /\
+  serve_tcp_route ex_targets (ex_conn 167837953 1) = [TLookup 0 (Some 1%nat); TDial 1 true; TTunnel 1; TClose].
+Proof. exact tcp_route_nonvacuous. Qed.
+Print Assumptions C12_tcp_route_nonvacuous.
+
+(* ================= round 8: EVERY removal of the htpasswd file locks out (Model/ReloadRemoval.v) ================= *)
+(* after any schedule: the `cleared` flag is up only while the empty table is in force *)
+Theorem C12_reload_cleared_means_empty : forall init mt sched,
+  cleared (snd (rrun (rboot init mt) sched)) = true -> in_force (snd (rrun (rboot init mt) sched)) = [].
+Proof. exact reload_cleared_means_empty. Qed.
+Print Assumptions C12_reload_cleared_means_empty.
+
+(* after ANY schedule (earlier removals, restorations, re-reads, requests) that leaves the file absent:
+   once the goroutine has taken removal_bound further steps, requests interleaved at will, no
+   credentials are accepted *)
+Theorem C12_reload_every_removal_locks_out : forall init mt sched tail c,
+  fs (snd (rrun (rboot init mt) sched)) = None ->
+  forallb (fun a => negb (is_env a)) tail = true ->
+  (removal_bound (snd (rrun (rboot init mt) sched)) <= List.length (filter is_refresher tail))%nat ->
+  basic_authorized (snd (rrun (rboot init mt) (sched ++ tail))) c = false.
+Proof. exact reload_every_removal_locks_out. Qed.
+Print Assumptions C12_reload_every_removal_locks_out.
+
+Theorem C12_reload_every_removal_gets_401 : forall parse_ip split_host init mt sched tail tg remote xff c,
+  t_auth tg <> [] ->
+  access_denied_http parse_ip split_host (t_rules tg) remote xff = false ->
+  fs (snd (rrun (rboot init mt) sched)) = None ->
+  forallb (fun a => negb (is_env a)) tail = true ->
+  (removal_bound (snd (rrun (rboot init mt) sched)) <= List.length (filter is_refresher tail))%nat ->
+  serve_http parse_ip split_host bcreds (Some tg)
+             (basic_scheme_table (t_auth tg) (snd (rrun (rboot init mt) (sched ++ tail)))) remote xff c
+    = [ERespond 401].
+Proof. exact reload_every_removal_gets_401. Qed.
+Print Assumptions C12_reload_every_removal_gets_401.
+
+(* non-vacuity: present / removed / restored / removed - the second removal locks alice out too *)
+Theorem C12_reload_removal_nonvacuous :
+  fst (rrun (rboot ex_file1 1) (ex_cycle ++ ex_cycle_tail)) =
+    [EvVerdict ex_alice true;
+     EvStatFailed; EvLoaded []; EvVerdict ex_alice false;
+     EvLoaded ex_file1; EvVerdict ex_alice true;
+     EvStatFailed; EvVerdict ex_alice true; EvLoaded []; EvStatFailed; EvVerdict ex_alice false] /\
+  fs (snd (rrun (rboot ex_file1 1) ex_cycle)) = None /\
+  cleared (snd (rrun (rboot ex_file1 1) ex_cycle)) = false /\
+  forallb (fun a => negb (is_env a)) ex_cycle_tail = true /\
+  (removal_bound (snd (rrun (rboot ex_file1 1) ex_cycle)) <= List.length (filter is_refresher ex_cycle_tail))%nat.
+Proof. exact reload_removal_nonvacuous. Qed.
+Print Assumptions C12_reload_removal_nonvacuous.
